@@ -56,10 +56,7 @@ func verifAfterRestart(strict bool) *store.CAStore {
 	verif.Assert("list-after-crash", err == nil)
 	for _, name := range names {
 		verif.Reach("blob-listed-after-restart")
-		if !strict {
-			_, serr := cas.GetCacheFileStat(name)
-			verif.Assume(!os.IsNotExist(serr)) // open finding F1
-		}
+		_ = strict // F1 (listed name without data file) was repaired upstream (869ea73): checked everywhere now
 		r, err := cas.GetCacheFileReader(name)
 		verif.Assert("listed-blob-is-readable", err == nil)
 		b, err := io.ReadAll(r)
